@@ -339,19 +339,27 @@ pub fn run(ctx: &Ctx, rep: &Report) -> Meta {
         sw.push((k, k / 2 + 1));
         sw.push((k % 5, k));
     }
+    // every total length L + 1 + M of the signed vector beyond those (one split of each, drawn from the seed): what
+    // the proof code sees is the total, and a switch at a particular total sits on no axis
+    let tmax = ctx.tier.pick(100usize, 270usize);
+    for t in kmax + 2..=tmax {
+        let mut s_ = ctx.seed ^ (t as u64) << 20;
+        let l = (crate::gen::splitmix(&mut s_) as usize) % t;
+        sw.push((l, t - 1 - l));
+    }
     let c = shaped(ctx.seed ^ 0x5EE5, &sw, false);
     // one suite per shape is enough here (the shapes list doubles otherwise)
     let c: Vec<Case> = c.into_iter().enumerate().filter(|(i, _)| i % 2 == (i / 2) % 2).map(|(_, x)| x).collect();
     par_items(ctx, rep, "size-sweep", &c, |c| check(rep, "size-sweep", c));
     if !rep.aborted() {
-        rep.exhaustive(format!("shapes (k, 0), (0, k), (k, k/2+1), (k mod 5, k) for every k in 4..={}", kmax));
+        rep.exhaustive(format!("shapes (k, 0), (0, k), (k, k/2+1), (k mod 5, k) for every k in 4..={}; every total length L + 1 + M in {}..={} (one split each; smaller totals lie on the axes)", kmax, kmax + 2, tmax));
     }
     let tier = ctx.tier;
     run_cases(ctx, rep, "random-shapes", ctx.tier.pick(64, 600), 100, || strat(tier), |c| check(rep, "random-shapes", c));
     Meta {
         rule: "prover-burst: all workers issue 1200 (quick) / 8000 (thorough) commits each at once, every fourth followed by proof_gen, every eighth by blind_sign + verify_blind_sign + blind_proof_gen, all of which must succeed; suite x key x header x ph x committed messages (M >= 0) x signer messages (L >= 0): commit, blind_sign over the commitment octets, verify_blind_sign, \
                octet round trips of commitment / signature / blind factor, issuance without commitment (None and empty spelling), then blind_proof_gen + blind_proof_verify for ALL 2^L x 2^M disclosure pairs \
-               (L, M <= 3 quick / 4 thorough, both suites) and class-sampled pairs for larger shapes incl. L+1+M > 16; shapes (k,0), (0,k), (k,k/2+1), (k mod 5,k) for every k up to 40 / 130, fixed shapes under contention, half of the cases after a warm-up history; oracle: every step Ok, decoded objects equal, proof length 272 + 32*U; \
+               (L, M <= 3 quick / 4 thorough, both suites) and class-sampled pairs for larger shapes incl. L+1+M > 16; shapes (k,0), (0,k), (k,k/2+1), (k mod 5,k) for every k up to 40 / 130, every total length L + 1 + M up to 100 / 270 (one split each), fixed shapes under contention, half of the cases after a warm-up history; oracle: every step Ok, decoded objects equal, proof length 272 + 32*U; \
                non-trivial = a disclosure pair executed on a shape; evaluations = verifications"
             .into(),
         assumptions: vec!["production randomness path (commit and proof_gen use thread_rng)".into()],
